@@ -57,6 +57,35 @@ fn asn(i: u8) -> u32 {
     ASNS[i as usize % ASNS.len()]
 }
 
+/// Customer / AS selectors of 100 and above name the k-th AS that is
+/// currently configured (ASPA customer, router key AS): requests about what
+/// exists are as frequent as requests about something new.
+fn resolve(req: &Req, st: &State) -> Req {
+    let existing_aspa: Vec<u32> = st.aspas.keys().copied().collect();
+    let existing_bgpsec: Vec<u32> = st.bgpsec.iter().map(|b| b.0).collect();
+    let idx_of = |a: u32| ASNS.iter().position(|x| *x == a).unwrap_or(0) as u8;
+    let pick = |sel: u8, from: &Vec<u32>| -> u8 {
+        if sel < 100 {
+            sel
+        } else if from.is_empty() {
+            sel - 100
+        } else {
+            idx_of(from[(sel as usize - 100) % from.len()])
+        }
+    };
+    match req {
+        Req::Aspa { set, remove } => {
+            let mut seen = BTreeSet::new();
+            let mut set: Vec<(u8, Vec<u8>)> = set.iter().map(|(c, p)| (pick(*c, &existing_aspa), p.clone())).collect();
+            set.retain(|(c, _)| seen.insert(asn(*c)));
+            Req::Aspa { set, remove: remove.iter().map(|c| pick(*c, &existing_aspa)).collect() }
+        }
+        Req::AspaProviders { customer, add, remove } => Req::AspaProviders { customer: pick(*customer, &existing_aspa), add: add.clone(), remove: remove.clone() },
+        Req::Bgpsec { add, remove_existing, remove_other } => Req::Bgpsec { add: add.iter().map(|(a, c)| (pick(*a, &existing_bgpsec), *c)).collect(), remove_existing: remove_existing.clone(), remove_other: remove_other.clone() },
+        other => other.clone(),
+    }
+}
+
 fn held(sim: &Sim) -> ResourceSet {
     let mut rs = ResourceSet::empty();
     if let Some(info) = sim.ca_info(CA) {
@@ -361,22 +390,24 @@ fn send(sim: &mut Sim, st: &State, req: &Req, bad_csr: &str) -> Result<bool, Fai
 
 fn req_strategy() -> BoxedStrategy<Req> {
     let asn_i = || 0u8..8;
+    // a customer / router AS: any, or (100 and above) one that is configured at that moment
+    let cust = || prop_oneof![3 => 0u8..8, 2 => 100u8..108];
     prop_oneof![
         8 => (vec(roa_spec(), 0..6), vec(any::<u16>(), 0..3), vec(roa_spec(), 0..2))
             .prop_map(|(add, remove_existing, remove_other)| Req::Roa { add, remove_existing, remove_other }),
-        3 => (vec((asn_i(), vec(asn_i(), 0..4)), 0..3), vec(asn_i(), 0..2)).prop_map(|(mut set, remove)| {
+        3 => (vec((cust(), vec(asn_i(), 0..4)), 0..3), vec(cust(), 0..2)).prop_map(|(mut set, remove)| {
             // one entry per customer in a single update (what two entries for
             // the same customer mean is not specified)
             let mut seen = BTreeSet::new();
             set.retain(|(c, _)| seen.insert(*c));
             Req::Aspa { set, remove }
         }),
-        3 => (asn_i(), vec(asn_i(), 0..3), vec(asn_i(), 0..3)).prop_map(|(customer, add, remove)| Req::AspaProviders { customer, add, remove }),
-        3 => (vec((asn_i(), 0u8..7), 0..3), vec(any::<u16>(), 0..2), vec((asn_i(), 0u8..6), 0..2))
+        3 => (cust(), vec(asn_i(), 0..3), vec(asn_i(), 0..3)).prop_map(|(customer, add, remove)| Req::AspaProviders { customer, add, remove }),
+        3 => (vec((cust(), 0u8..7), 0..3), vec(any::<u16>(), 0..2), vec((asn_i(), 0u8..6), 0..2))
             .prop_map(|(add, remove_existing, remove_other)| Req::Bgpsec { add, remove_existing, remove_other }),
         2 => (0u8..3, prop_oneof![4 => Just(false), 1 => Just(true)], mask()).prop_map(|(child, under_ta, res)| Req::ChildAdd { child, under_ta, res }),
         2 => (0u8..3, mask()).prop_map(|(child, res)| Req::ChildUpdate { child, res }),
-        1 => mask().prop_map(|res| Req::Hold { res }),
+        3 => mask().prop_map(|res| Req::Hold { res }),
     ]
     .boxed()
 }
@@ -447,6 +478,7 @@ impl Prop for C05 {
         let mut classes: BTreeSet<String> = BTreeSet::new();
         for (i, req) in case.reqs.iter().enumerate() {
             let held = held(&sim);
+            let req = &resolve(req, &st);
             let expect = model(&st, &held, req, &csr_keys, &ta_children);
             let served_before = sim.w().served_for(CA).unwrap_or_default();
             let tasks_before: BTreeSet<String> = sim.w().pending_tasks().into_iter().map(|t| t.1).collect();
@@ -476,6 +508,25 @@ impl Prop for C05 {
                 };
                 classes.insert("held_resources_changed".into());
                 continue;
+            }
+            // requests that touch something configured whose backing resources were lost meanwhile
+            match req {
+                Req::Aspa { set, remove } => {
+                    if set.iter().any(|(c, _)| st.aspas.contains_key(&asn(*c)) && !asn_held(&held, asn(*c)) && !remove.contains(c)) {
+                        classes.insert("aspa_replace_of_definition_with_unheld_customer".into());
+                    }
+                }
+                Req::AspaProviders { customer, .. } => {
+                    if st.aspas.contains_key(&asn(*customer)) && !asn_held(&held, asn(*customer)) {
+                        classes.insert("aspa_providers_of_definition_with_unheld_customer".into());
+                    }
+                }
+                Req::Bgpsec { add, .. } => {
+                    if add.iter().any(|(a, _)| st.bgpsec.iter().any(|b| b.0 == asn(*a)) && !asn_held(&held, asn(*a))) {
+                        classes.insert("bgpsec_for_configured_unheld_asn".into());
+                    }
+                }
+                _ => {}
             }
             // A provider update without effect on a definition whose customer
             // AS is no longer held "keeps something not backed by held
